@@ -11,8 +11,10 @@ F_EB = 'atsim/potentials/config/_eam_potential_builder.py'
 import contracts.duplicates as DU
 import contracts.builders_eam as BE
 import contracts.rawparser as RPc
+import contracts.registry as RGc
 FUNCTIONS = [(F_CP, 'ConfigParser._pair_species_func'), (F_CP, 'ConfigParser._check_for_duplicate_pairs'), (F_EB, 'EAM_Potential_Builder_FS._density_to_potential_form_dict'),
-             (F_CP, '_RawConfigParser.has_option')]     # additions are tested with has_option(): own keys compared by normal form
+             (F_CP, '_RawConfigParser.has_option'),
+             (F_REG, 'Potential_Form_Registry._build_table_forms'), (F_REG, 'Potential_Form_Registry._build_potential_forms')]     # additions are tested with has_option(): own keys compared by normal form
 
 def lemmas():
     out = []
@@ -44,10 +46,7 @@ def lemmas():
     out.append(S('C20', F_CP, '_TableFormSection.check_for_duplicate_table_forms', 'names-compared-after-strip',
                  ['label = cls._parse_name(section_name)', 'seen.setdefault(label, []).append(section_name)', 'if len(v) > 1:', 'raise ConfigParserDuplicateEntryException(msg)']))
     out.append(S('C20', F_CP, '_TableFormSection._parse_name', 'strip', ['name = name.strip()', 'return name']))
-    out.append(S('C20', F_REG, 'Potential_Form_Registry._build_potential_forms', 'label-clash-with-anything-registered',
-                 ['if d.signature.label in potential_forms:\n            raise Potential_Form_Registry_Exception', 'if d.signature.label in self._potential_forms:\n            raise Potential_Form_Registry_Exception']))
-    out.append(S('C20', F_REG, 'Potential_Form_Registry._build_table_forms', 'name-clash-with-anything-registered',
-                 ['if d.name in self._potential_forms or d.name in table_forms or d.name in self._late_standard_names:\n            raise Potential_Form_Registry_Exception'], forbidden=['d.signature']))
+    # label clashes: Potential_Form_Registry._build_table_forms / _build_potential_forms are under Engine A contracts (contracts/registry.py)
     out.append(S('C20', F_REG, 'Potential_Form_Registry.__init__', 'late-standard-names-reserved',
                  ['self._late_standard_names = self._standard_names_from_potentialforms() - set(self._potential_forms)']))
     out.append(S('C20', F_REG, 'Potential_Form_Registry._standard_names_from_potentialforms', 'same-enumeration-as-the-late-registration',
@@ -63,6 +62,9 @@ def lemmas():
     return out
 
 MUTANTS = [
+    (F_REG, 'Potential_Form_Registry._build_table_forms', "or d.name in self._late_standard_names", "", 'preserve/0'),
+    (F_REG, 'Potential_Form_Registry._build_table_forms', "if d.name in self._potential_forms or d.name in table_forms", "if d.name in self._potential_forms", 'preserve/0'),
+    (F_REG, 'Potential_Form_Registry._build_potential_forms', "if d.signature.label in potential_forms:", "if False:", 'preserve/0'),
     (F_CP, 'ConfigParser._check_for_duplicate_pairs', "if p in seen or rev_p in seen:", "if p in seen and rev_p in seen:", 'preserve/0'),
     (F_CP, 'ConfigParser._check_for_duplicate_pairs', "seen.add(p)", "pass", 'preserve/0'),
     (F_CP, 'ConfigParser._check_for_duplicate_pairs', "rev_p = tuple(reversed(list(p)))", "rev_p = tuple(list(p))", 'preserve/0'),
@@ -72,7 +74,7 @@ MUTANTS = [
 MODULE_MUTANTS = [
     (F_CP, "    option = option.strip().replace(' ', '').replace('\\t', '')\n", "    option = option.strip()\n", 'optionxform'),
     (F_CP, "        if (p in seen) or (rev_p in seen):", "        if (p in seen):", '_check_for_duplicate_pairs/preserve'),
-    (F_REG, "      if d.signature.label in self._potential_forms:\n        raise Potential_Form_Registry_Exception(\"The label of a [Potential-Form] entry is already in use by a table form or standard potential form: '{0}'\".format(d.signature.label))\n", "", 'label-clash'),
+    (F_REG, "      if d.signature.label in self._potential_forms:\n        raise Potential_Form_Registry_Exception(\"The label of a [Potential-Form] entry is already in use by a table form or standard potential form: '{0}'\".format(d.signature.label))\n", "", '_build_potential_forms/preserve'),
     (F_EB, "      if t_species in add_to:\n        raise ConfigurationException(\"Duplicate density function found for {}\".format(d.species))\n", "", '_density_to_potential_form_dict/preserve'),
 ]
 ENGINE_B_FUNCTIONS = [(F_CP, '_RawConfigParser.optionxform'),
